@@ -22,7 +22,7 @@ from . import key_driver as kd
 NOTOL = 99
 ALL_FLOATS = set(range(1, 15))
 ALL_OTHERS = {21, 22, 23, 24, 25, 26, 27}
-ALL_SHAPES = set(range(1, 20))
+ALL_SHAPES = set(range(1, 22))
 # per tolerance: floats that merge / tie at that tolerance, and a few non-floats (quick tier)
 QUICK_ALPHA = {
     None: ({2, 3}, {21, 23}),
@@ -34,7 +34,7 @@ QUICK_ALPHA = {
 DEVIATIONS = {
     'deep_dict_nonstr_keys': dict(FloatIds={2, 3}, OtherIds=set(), ShapeIds={7, 11}, TolIds={10}),
     'shallow_str_listified': dict(FloatIds={2}, OtherIds={23, 26}, ShapeIds={1}, TolIds={10}),
-    'deep_rebuild_raises': dict(FloatIds={2, 3}, OtherIds=set(), ShapeIds={17, 18}, TolIds={10}),
+    'deep_rebuild_raises': dict(FloatIds={2, 3}, OtherIds=set(), ShapeIds={17, 18, 20}, TolIds={10}),
 }
 STR = {100: 'a', 101: 'b', 105: 'ab'}
 RSTR = {v: k for k, v in STR.items()}
@@ -107,6 +107,9 @@ def build(n):
         return None
     if t == 'range':
         return range(n['v'])
+    if t == 'ipnet':
+        import ipaddress
+        return ipaddress.ip_network('10.0.0.0/%d' % n['v'])
     kids = [build(c) for c in n['c']] if t != 'dict' else None
     if t == 'ntuple':
         return NT(*kids)
@@ -153,6 +156,8 @@ def describe(x):
         return leaf('str', RSTR.get(x, 998))
     if x is None:
         return leaf('none', 0)
+    if type(x).__name__ == 'IPv4Network':
+        return leaf('ipnet', x.prefixlen) if str(x.network_address) == '10.0.0.0' else leaf('other', 5)
     if type(x) is range:
         return leaf('range', len(x)) if x == range(len(x)) else leaf('other', 4)
     if type(x) is NT:
@@ -211,7 +216,8 @@ def run_cached(klepto, group, cfg):
             return mod.inf_cache(keymap=km, tol=tol, deep=cfg['deep'])(stub)
         if alg == 'no':      # no_cache keeps nothing in memory: give it an archive so that a repeated key is a load
             return mod.no_cache(cache=klepto.archives.dict_archive('round', cached=True), keymap=km, tol=tol, deep=cfg['deep'])(stub)
-        return getattr(mod, alg + '_cache')(maxsize=100000, keymap=km, tol=tol, deep=cfg['deep'])(stub)
+        # (a bounded decorator asked for maxsize=None hands over to inf_cache: every setting must survive that)
+        return getattr(mod, alg + '_cache')(maxsize=cfg.get('maxsize', 100000), keymap=km, tol=tol, deep=cfg['deep'])(stub)
     f = mk(cfg['tol'])
     base = mk(None)
     cached = cfg['mode'] != 'keygen'
@@ -371,6 +377,8 @@ def main(pid, tier):
                                 c = dict(tol=tol, deep=deep, enc=enc, mode=mode, form=form)
                                 if alg:
                                     c['alg'] = alg
+                                    if alg in ('lru', 'lfu', 'mru', 'rr') and (len(jobs) + g['sh']) % 2:
+                                        c['maxsize'] = None
                                 jobs.append((g, c))
             for which in ('simple', 'shallow', 'deep'):
                 if which == 'shallow' and g['sh'] in TOP_DICT_SHAPES:
